@@ -73,3 +73,9 @@ claim('C14', 'c14_url.c',
       'and a usable service entry exists - for every outcome of every getprotobyname/getservbyname call (solver-decided). Every string up to the length bound over the byte classes '
       '{: / ? @ alnum other} parses and unparses without a memory fault whatever the lookups return.',
       'DESIGN.md section 4, C14')
+claim('C05', 'c05_protocol.c',
+      'CBMC check of the object protocol: dup independence (mutate/delete either side, re-read the other) from arbitrary states, comp order laws on symbolic triples, obj comp on symbolic addresses, type()',
+      'For str, ustr and mbuff from every state shape, and for the list/vector/map flavour of all three container classes, objpair, tok, url and regexp, the solver shows dup '
+      'returns a distinct object of the same class with equal value and own storage, and that mutating or deleting either object leaves the other valid and unchanged (freed-object '
+      'dereferences are CBMC failures); comp is reflexive, antisymmetric and transitive with NULL first and equality only for equal values (symbolic bytes / element values / 63-bit addresses).',
+      'DESIGN.md section 4, C05')
